@@ -163,10 +163,10 @@ def run(chk, tier):
 
         # ---- R10.3 interior mutability census
         seen = set()
-        q = ['Unimock']
+        q = [('Unimock', None)]
         nleaf = 0
         while q:
-            a = q.pop(0)
+            a, via = q.pop(0)
             if a in seen or a not in F.adts:
                 continue
             seen.add(a)
@@ -174,12 +174,15 @@ def run(chk, tier):
                 for f in v['fields']:
                     for x in f.get('imut_direct', []):
                         if x.startswith('local:'):
-                            q.append(x[6:])
+                            # (a single-field wrapper struct that does not exist on the reference tree stands for the field it wraps)
+                            q.append((x[6:], (a, f['name']) if x[6:] in getattr(F, 'transparent', ()) else None))
                             continue
                         if BENIGN_LEAF.search(x):
                             continue
                         nleaf += 1
                         allow = IMUT_ALLOW.get((a, f['name']))
+                        if allow is None and via is not None and a in getattr(F, 'transparent', ()):
+                            allow = IMUT_ALLOW.get(via)
                         if allow is None and f['name'] in write_only and re.search(r'^core::sync::atomic::Atomic\w*$', x):
                             allow = [r'^core::sync::atomic::Atomic\w*$']      # a write-only statistic, see R10.1
                         ok = allow is not None and any(re.search(rx, x) for rx in allow)
